@@ -28,6 +28,13 @@ PROP = dict(
           "points x 5 ambient states; pass iff the thrown type is E or derives from it and, for a file-local E, belongs to the same file; stage "
           "c19_two_tu (oracle/c19_two_tu.py) builds the same matrix as a stand-alone probe with g++ and clang++ at -O0 / -O2 (expect_raises_fn is a "
           "template: the consumer's compiler compiles it) and decides it against the hierarchy written down in Python; "
+          "(g) raises_nested: expect_raises on thrown objects that CARRY another exception - std::throw_with_nested(outer) called while `inner` is "
+          "being handled, or an own class deriving from the outer type and std::nested_exception: 16 expected types (the 15 of (b) + "
+          "std::nested_exception) x 2 ways of building the object x 15 outer types x carried {each of the 15 types, an int, nothing (null nested "
+          "pointer, or the exception the ambient state has in flight)} x 2 entry points x 5 ambient states, and nested-in-nested (every outer layer "
+          "x a std::throw_with_nested middle layer of each type x 3 carried kinds); generated: 1..4 layers, something carried inside forced to be "
+          "exactly E in half of the cases; the verdict is decided by the OUTER type alone (the thrown object's type derives from it and from "
+          "std::nested_exception; what it carries is not the type of what fn throws), fn is called once; "
           "plus rapidcheck-generated cases (boundary-biased int64, arbitrary double bit patterns, short byte strings, "
           "equal / adjacent pairs forced in 1/3-1/2 of the cases; raw predicates: zero, boundary, arbitrary, integers whose low 8/16/32/48/63 bits are "
           "zero, 128-bit values decided by the high word only, float/double dyadic fractions down to the subnormal range, NaN/inf, long double from "
@@ -35,7 +42,9 @@ PROP = dict(
           "value / zero-nonzero flipped / arbitrary). Non-trivial: every relation / truth cell (each decides one relation on "
           "one operand pair / one conversion on one value); expect_raises cells where fn returns normally, or E is a base of expectation_failed "
           "(std::exception, std::logic_error, expectation_failed), or E / the thrown type is one of the five non-tree types, or the ambient state is "
-          "not plain; every once cell; raises_tu / two_tu cells where E is file-local or the thrown object comes from the other file. "
+          "not plain; every once cell; raises_tu / two_tu cells where E is file-local or the thrown object comes from the other file; raises_nested "
+          "cells where what is carried inside would give the other verdict, or nothing is carried, or E / the outer type is one of the special types "
+          "above (std::nested_exception included), or the ambient state is not plain. "
           "Distinct = distinct case encodings (hash)."),
     assumptions=["expectation_failed::msg is only read when the message is a string literal (macro-generated); in the wrong-type arm of "
                  "expect_raises it points into a destroyed std::string and only what() is inspected",
@@ -43,6 +52,10 @@ PROP = dict(
                  "exactly what a `catch (const E&)` handler matches; cells where T derives from E only through an ambiguous or inaccessible base "
                  "(E = std::exception with the two-subobject type; E = std::exception / runtime_error with the private-base type) are left open: "
                  "either verdict is accepted, a failure must still be the helper's own expectation_failed with the call site (counted as excluded)",
+                 "the object std::throw_with_nested(T) throws has an unspecified type publicly derived from both T and std::nested_exception "
+                 "([except.nested]); its verdict for E is modelled as std::is_convertible<const W*, const E*> for an own class W deriving publicly from "
+                 "exactly T and std::nested_exception, and confirmed per case by a catch (const E&) handler of the harness (clause ORACLE-handler-disagrees); "
+                 "the exception carried inside never contributes to the verdict: it is not the type of what fn throws",
                  "the expected verdict of expect(v) / expect_msg(v, m) for a raw arithmetic v is computed on the representation (any value bit set; "
                  "for float/double any bit besides the sign), cross-checked against static_cast<bool>(v)",
                  "clang++ with libstdc++ (the main harness's toolchain) compares type_info names of internal-linkage types as strings, so its own "
